@@ -437,3 +437,16 @@ M("c06-generatepath-needs-both", "C06", "cola/libavoid/connector.cpp",
 M("c06-neutral-comment-and-local", "C06", "cola/libavoid/router.cpp",
   "        unsigned int pid = obstacle->id();\n\n        // o  Remove entries related to this shape's vertices\n        obstacle->removeFromGraph();",
   "        const unsigned int pid = obstacle->id();\n        Obstacle *ob = obstacle;\n        ob->removeFromGraph();", expect="silent")
+
+# ---------------------------------------------------------------- C02 solve exit
+MUTANTS.append({"id": "c02-revert-solve-exit", "prop": "C02", "expect": "fire", "mention": ["SOLVE-EXIT-KKT"], "tu": None, "edits": [
+    {"file": "cola/libvpsc/solve_VPSC.cpp", "count": 1,
+     "old": "    while((fabs(lastcost-cost)>0.0001) || ((splitCnt>0) && (maxtries-->0))) {", "new": "    while(fabs(lastcost-cost)>0.0001) {"},
+    {"file": "cola/libavoid/vpsc.cpp", "count": 1,
+     "old": "    while((fabs(lastcost-cost)>0.0001) || ((splitCnt>0) && (maxtries-->0))) {", "new": "    while(fabs(lastcost-cost)>0.0001) {"}]})
+M("c02-split-not-counted", "C02", "cola/libvpsc/solve_VPSC.cpp",
+  "            splitCnt++;\n            Block *b = v->left->block, *l=nullptr, *r=nullptr;", "            Block *b = v->left->block, *l=nullptr, *r=nullptr;",
+  mention=["SOLVE-EXIT-KKT", "splitBlocks"])
+M("c02-solve-exit-neutral-bound", "C02", "cola/libvpsc/solve_VPSC.cpp",
+  "    unsigned maxtries = 100;\n    while((fabs(lastcost-cost)>0.0001) || ((splitCnt>0) && (maxtries-->0))) {",
+  "    unsigned maxtries = 200;\n    while((fabs(lastcost-cost)>0.0001) || ((maxtries-->0) && (splitCnt!=0))) {", expect="fire", mention=["SIBLING"])
